@@ -904,6 +904,14 @@ def run_torch_shortcuts(ctx):
             for adv in ("/", "\\"):
                 t1, t2 = f"{op}{adv}{v}", "{x" + op + "y}" + adv + v
                 r1, r2 = ev(t1), ev(t2)
+                # the same fold over a VARIABLE takes the backend's compiled code; it must agree as well
+                t3 = f"tsv::{v};{op}{adv}tsv"
+                r3 = ev(t3)
+                if not (r3[0] == 'E' and r2[0] == 'E') and (r3[0] == 'E' or r2[0] == 'E' or not U.veq(r3, r2, rtol=1e-4)):
+                    ctx.oracle_fail(f"torch:compiled:{adv}:{op}", dict(text=t3, backend="torch"),
+                                    U.show(r2) if r2[0] != 'E' else f"raises {r2[1]}",
+                                    U.show(r3) if r3[0] != 'E' else f"raises {r3[1]}",
+                                    "fold over a variable (compiled) differs from the fold written out with the equivalent lambda")
                 ctx.count(("torch-shortcut", t1), nontrivial=True)
                 ctx.bump("torch:shortcut-vs-lambda")
                 if r1[0] == 'E' and r2[0] == 'E':
